@@ -191,6 +191,12 @@ def gen_scenario(rng, strategy=None, n_gc=None, feasible=True, features=None, ma
                 "parent": g, "charging_curve": [[0, bp], [1, bp]],
                 "capacity": rng.choice([10, 50, 200, -1]), "soc": rng.choice([0, 0.5, 1.0]),
                 "min_charging_power": rng.choice([0, 0, 1]), "efficiency": rng.choice([0.95, 1.0, 0.9])}
+            if comp["batteries"]["BAT_" + g]["capacity"] > 0 and rng.random() < 0.3:
+                # a discharge curve of its own that fades out towards an empty battery: the power a battery can still
+                # contribute depends on its SoC (seeded change C10-i2: get_available_power by a closed form)
+                comp["batteries"]["BAT_" + g]["discharge_curve"] = rng.choice(
+                    [[[0, 0], [0.25, bp], [1, bp]], [[0, round(bp / 4, 3)], [0.5, bp], [1, bp]]])
+                comp["batteries"]["BAT_" + g]["soc"] = rng.choice([0.2, 0.3, 0.5, 1.0])
             if rng.random() < 0.3:
                 comp["batteries"]["BAT_" + g]["loss_rate"] = {
                     "relative": rng.choice([0, 0.5]), "fixed_relative": rng.choice([0, 0.1]),
